@@ -1,9 +1,9 @@
 CONSTANTS
-  NF = 2  D = 2  CapSmall = 1  CapLarge = 1
-  Kinds <- KAll
+  NF = 3  D = 2  CapSmall = 1  CapLarge = 1
+  Kinds <- KAnswer
   Sizes <- SAll
   Opts <- OPlain
-  FlushOnWait = FALSE  FlushBeforeDirect = TRUE  ResetSlot = TRUE
-SPECIFICATION Spec
+  FlushOnWait = TRUE  FlushBeforeDirect = TRUE  ResetSlot = TRUE
+SPECIFICATION ScriptSpec
 INVARIANTS TypeOK WholeInOrderOnePerQuery ReplyOptIsOwn SlotIsZeroBetweenRequests NothingHeldWhileBlocked ClassFits TokenConservation ClosedIsClean
 CHECK_DEADLOCK FALSE
